@@ -389,13 +389,17 @@ func c19(r *Run) {
 		}
 		// R2: one batch
 		var batches []string
+		batchVals := map[ssa.Value]bool{}
 		for _, e := range effectsOf(ul) {
 			if strings.HasPrefix(e.Str, "call (ago/database.") && (strings.Contains(e.Str, ").Put(") || strings.Contains(e.Str, ").Delete(") || strings.Contains(e.Str, ").Write(")) {
 				a := callArgs(e.Ins.(ssa.CallInstruction))
 				batches = append(batches, term(a[0]))
+				if e.Inner == nil {
+					batchVals[strip(a[0])] = true // two NewBatch calls render alike: compare the values
+				}
 			}
 		}
-		same := len(batches) >= 6
+		same := len(batches) >= 6 && len(batchVals) <= 1
 		for _, b := range batches {
 			if b != batches[0] {
 				same = false
